@@ -7,12 +7,13 @@ open Hls.Gen
 
 /-- what a stream operation may do outside `streams`: nothing to the control fields; track sample lists may be emptied -/
 def Frame (st st' : State) : Prop :=
-  SameCtl st st' ∧ ∀ tj, st'.track tj = st.track tj ∨ st'.track tj = clearSamples (st.track tj)
+  SameCtl st st' ∧ (∀ tj, st'.track tj = st.track tj ∨ st'.track tj = clearSamples (st.track tj)) ∧
+  st'.tracks.length = st.tracks.length
 
-theorem Frame.refl (st : State) : Frame st st := ⟨SameCtl.refl st, fun _ => Or.inl rfl⟩
+theorem Frame.refl (st : State) : Frame st st := ⟨SameCtl.refl st, fun _ => Or.inl rfl, rfl⟩
 theorem Frame.trans {a b c : State} (h1 : Frame a b) (h2 : Frame b c) : Frame a c := by
-  refine ⟨h1.1.trans h2.1, fun tj => ?_⟩
-  rcases h1.2 tj with e1 | e1 <;> rcases h2.2 tj with e2 | e2
+  refine ⟨h1.1.trans h2.1, fun tj => ?_, h2.2.2.trans h1.2.2⟩
+  rcases h1.2.1 tj with e1 | e1 <;> rcases h2.2.1 tj with e2 | e2
   · exact Or.inl (e2.trans e1)
   · exact Or.inr (e2.trans (by rw [e1]))
   · exact Or.inr (e2.trans e1)
@@ -171,8 +172,9 @@ theorem leadThenOthers_spec (G : State → Nat → State) (g : State → Nat →
     (hgl : (g st L).isLeading = (st.stream L).isLeading) :
     Frame st (leadThenOthers G copy st L) ∧ (leadThenOthers G copy st L).streams.length = st.streams.length ∧
     (leadThenOthers G copy st L).stream L = g st L ∧
-    ∀ si, si < st.streams.length → si ≠ L → ∃ st', Frame st st' ∧ st'.streams.length = st.streams.length ∧
-      st'.stream si = st.stream si ∧ (leadThenOthers G copy st L).stream si = copy (g st' si) (g st L) := by
+    (∀ si, si < st.streams.length → si ≠ L → ∃ st', Frame st st' ∧ st'.streams.length = st.streams.length ∧
+      st'.stream si = st.stream si ∧ (leadThenOthers G copy st L).stream si = copy (g st' si) (g st L)) ∧
+    Frame (G st L) (leadThenOthers G copy st L) := by
   obtain ⟨hs1, hf1⟩ := hG st L hL
   have hlen1 : (G st L).streams.length = st.streams.length := length_of_set hs1
   have hL1 : (G st L).stream L = g st L := stream_of_set_same hs1 hL
@@ -194,7 +196,7 @@ theorem leadThenOthers_spec (G : State → Nat → State) (g : State → Nat →
       obtain ⟨hs, hf⟩ := hG st' si hsi
       refine ⟨?_, ?_⟩
       · rw [setStream_streams, hs, List.set_set]
-      · refine Frame.trans hf ⟨⟨rfl, rfl, rfl, rfl, rfl⟩, fun _ => Or.inl rfl⟩
+      · refine Frame.trans hf ⟨⟨rfl, rfl, rfl, rfl, rfl⟩, fun _ => Or.inl rfl, rfl⟩
   obtain ⟨hR, hlen, _, hlt⟩ := fold_range_streams F f Frame Frame.refl (fun _ _ _ => Frame.trans) hF (G st L)
     (G st L).streams.length (Nat.le_refl _)
   have hres : leadThenOthers G copy st L = (List.range (G st L).streams.length).foldl F (G st L) := rfl
@@ -205,7 +207,7 @@ theorem leadThenOthers_spec (G : State → Nat → State) (g : State → Nat →
     have e : st'.stream L = g st L := (h3 L (Nat.le_refl _)).trans hL1
     rw [h5]
     simp only [f, e, hgl, (hlead L hL).2 rfl, if_true]
-  refine ⟨Frame.trans hf1 hR, hlen.trans hlen1, hLres, ?_⟩
+  refine ⟨Frame.trans hf1 hR, hlen.trans hlen1, hLres, ?_, hR⟩
   intro si hsi hne
   obtain ⟨st', h1, h2, h3, h4, h5⟩ := hlt si (hlen1 ▸ hsi)
   have esi : st'.stream si = st.stream si :=
@@ -248,9 +250,10 @@ theorem GI_leadThenOthers {st : State} {L : Nat} (h : GI st L)
       (copy (gS s c) (gS s' c')).partTargetDur = (gS s' c').partTargetDur) :
     GI (leadThenOthers G copy st L) L ∧ Frame st (leadThenOthers G copy st L) ∧
     (leadThenOthers G copy st L).streams.length = st.streams.length ∧
-    (leadThenOthers G copy st L).stream L = gS (st.stream L) (fpContent st L) := by
+    (leadThenOthers G copy st L).stream L = gS (st.stream L) (fpContent st L) ∧
+    Frame (G st L) (leadThenOthers G copy st L) := by
   have hgL : g st L = gS (st.stream L) (fpContent st L) := hg st L rfl
-  obtain ⟨hfr, hlen, hLr, hoth⟩ := leadThenOthers_spec G g copy hG st L h.lt h.lead (by rw [hgL, hlead])
+  obtain ⟨hfr, hlen, hLr, hoth, hfr2⟩ := leadThenOthers_spec G g copy hG st L h.lt h.lead (by rw [hgL, hlead])
   have hcfg : (leadThenOthers G copy st L).cfg = st.cfg := hfr.cfg
   -- every stream of the result, described
   have hdesc : ∀ si, si < st.streams.length → si ≠ L → ∃ c,
@@ -259,7 +262,7 @@ theorem GI_leadThenOthers {st : State} {L : Nat} (h : GI st L)
     obtain ⟨st', hf', _, es, er⟩ := hoth si hsi hne
     refine ⟨fpContent st' si, ?_⟩
     rw [er, hg st' si hf'.cfg, es, hgL]
-  refine ⟨⟨hlen ▸ h.lt, ?_, ?_, ?_, ?_, ?_, ?_, by rw [streamOf_congr hcfg, hcfg]; exact h.lidx⟩, hfr, hlen, hLr.trans hgL⟩
+  refine ⟨⟨hlen ▸ h.lt, ?_, ?_, ?_, ?_, ?_, ?_, by rw [streamOf_congr hcfg, hcfg]; exact h.lidx⟩, hfr, hlen, hLr.trans hgL, hfr2⟩
   · intro si hsi
     rw [hlen] at hsi
     by_cases hne : si = L
@@ -306,10 +309,10 @@ theorem rsS_isLeading (v n s c d ntp f) : (rsS v n s c d ntp f).isLeading = s.is
   · rfl
 
 theorem rps_frame (st : State) (si : Nat) (d : Int) (b : Bool) : Frame st (rotatePartsStream st si d b) :=
-  ⟨rps_sameCtl st si d b, fun tj => rps_track st si d b tj⟩
+  ⟨rps_sameCtl st si d b, fun tj => rps_track st si d b tj, rps_tracks_length st si d b⟩
 
 theorem rss_frame (st : State) (si : Nat) (d n : Int) (f : Bool) : Frame st (rotateSegmentsStream st si d n f) := by
-  refine ⟨rss_sameCtl st si d n f, fun tj => ?_⟩
+  refine ⟨rss_sameCtl st si d n f, fun tj => ?_, rss_tracks_length st si d n f⟩
   rw [rss_track]
   unfold rsPre
   split
@@ -318,7 +321,8 @@ theorem rss_frame (st : State) (si : Nat) (d n : Int) (f : Bool) : Frame st (rot
 
 theorem GI_rotateParts {st : State} {L : Nat} (h : GI st L) (hv : st.cfg.variant ≠ .mpegts) (d : Int) :
     GI (rotateParts st d) L ∧ Frame st (rotateParts st d) ∧ (rotateParts st d).streams.length = st.streams.length ∧
-    (rotateParts st d).stream L = rpS st.cfg.variant (st.stream L) (fpContent st L) d true := by
+    (rotateParts st d).stream L = rpS st.cfg.variant (st.stream L) (fpContent st L) d true ∧
+    Frame (rotatePartsStream st L d true) (rotateParts st d) := by
   rw [rotateParts_eq, h.leadingStream]
   refine GI_leadThenOthers h _ (fun st' si => rpS st'.cfg.variant (st'.stream si) (fpContent st' si) d true) _
     (fun s c => rpS st.cfg.variant s c d true) ?_ ?_ ⟨fun _ _ => rfl, fun _ _ => rfl, fun _ _ => rfl, fun _ _ => rfl, fun _ _ => rfl⟩
@@ -338,7 +342,8 @@ theorem GI_rotateSegments {st : State} {L : Nat} (h : GI st L) (d n : Int) (f : 
     GI (rotateSegments st d n f) L ∧ Frame st (rotateSegments st d n f) ∧
     (rotateSegments st d n f).streams.length = st.streams.length ∧
     (rotateSegments st d n f).stream L =
-      rsS st.cfg.variant st.cfg.segmentCount (st.stream L) (fpContent st L) d n f := by
+      rsS st.cfg.variant st.cfg.segmentCount (st.stream L) (fpContent st L) d n f ∧
+    Frame (rotateSegmentsStream st L d n f) (rotateSegments st d n f) := by
   rw [rotateSegments_eq, h.leadingStream]
   refine GI_leadThenOthers h _
     (fun st' si => rsS st'.cfg.variant st'.cfg.segmentCount (st'.stream si) (fpContent st' si) d n f) _
